@@ -119,6 +119,12 @@ def natural_matrix(ctx):
         out.append(dict(dev="bar", k=k, steps=8, adaptive=False, dt=2.0 ** -6, probes=2, current=2.0, field=0.3, screening=scr,
                         out=("path" if n % 2 else "temp"), foreign=[],
                         fault=dict(kind=kind, where="update", stage="sim", i=i, at="post")))
+    # the Ctrl-C lands INSIDE the innermost computation of the real update (the Laplacian product of the implicit
+    # evaluation): it must cancel the run like any other — not be taken for a failed attempt and retried
+    for n, (i, adaptive, k) in enumerate([(3, True, 2), (2, False, 3), (5, True, 4)]):
+        out.append(dict(dev="bar", k=k, steps=8, adaptive=adaptive, dt=2.0 ** -6, dt_max=0.1, probes=2, current=2.0, field=0.3,
+                        out=("path" if n % 2 else "temp"), foreign=[],
+                        fault=dict(kind="KI", where="update", stage="sim", i=i, at="inside")))
     return out
 
 
